@@ -188,16 +188,44 @@ def declared_environment(out: Outcome) -> None:
             out.violation(f"{rel}: not valid Python 3.{minor} (the declared minimum): {e.msg}", {"kind": "syntax", "file": rel})
             continue
         # optional dependencies and newer APIs used behind a guard are fine: an import inside `try: ... except ImportError`, a name tested with `hasattr` first
-        guarded = set()
+        # three separate exemptions, each for what its guard actually protects (review T4: a guard must not exempt more than it guards):
+        #   guarded_imports - statements directly in the body of a `try` whose handlers catch ImportError / ModuleNotFoundError (by NAME, or everything): IMPORTS only
+        #   guarded_attrs   - inside `if hasattr(X, "name")` / `X.name if hasattr(X, "name") else ...` / `try ... except AttributeError`: uses of the attribute `name` only
+        #   version_guarded - the body of `if sys.version_info >= (3, k)`: names newer than the declared minimum but not newer than 3.k
+        def catches(handler, names):
+            if handler.type is None:
+                return True
+            types = handler.type.elts if isinstance(handler.type, ast.Tuple) else [handler.type]
+            return any((isinstance(t, ast.Name) and t.id in names) or (isinstance(t, ast.Attribute) and t.attr in names) for t in types)
+
+        guarded_imports, guarded_attrs, attr_try = set(), {}, set()
         for node in ast.walk(tree):
-            if isinstance(node, ast.Try) and any(h.type is None or any(nm in ast.dump(h.type) for nm in ("ImportError", "ModuleNotFoundError", "AttributeError", "Exception")) for h in node.handlers):
+            if isinstance(node, ast.Try):
+                if any(catches(h, ("ImportError", "ModuleNotFoundError", "Exception", "BaseException")) for h in node.handlers):
+                    guarded_imports |= {id(x) for x in node.body if isinstance(x, (ast.Import, ast.ImportFrom))}
+                if any(catches(h, ("AttributeError", "Exception", "BaseException")) for h in node.handlers):
+                    for sub in node.body:
+                        if not isinstance(sub, (ast.FunctionDef, ast.AsyncFunctionDef, ast.ClassDef)):
+                            attr_try |= {id(x) for x in ast.walk(sub)}
+            if isinstance(node, (ast.If, ast.IfExp)):
+                tested = {c.args[1].value for c in ast.walk(node.test) if isinstance(c, ast.Call) and isinstance(c.func, ast.Name) and c.func.id == "hasattr"
+                          and len(c.args) == 2 and isinstance(c.args[1], ast.Constant) and isinstance(c.args[1].value, str)}
+                if tested:
+                    for x in ast.walk(node):
+                        if isinstance(x, ast.Attribute) and x.attr in tested:
+                            guarded_attrs[id(x)] = True
+        version_guard = {}
+        for node in ast.walk(tree):
+            if isinstance(node, ast.If) and isinstance(node.test, ast.Compare) and len(node.test.ops) == 1 and isinstance(node.test.ops[0], (ast.GtE, ast.Gt)) \
+                    and isinstance(node.test.left, ast.Attribute) and node.test.left.attr == "version_info" and isinstance(node.test.comparators[0], ast.Tuple) \
+                    and len(node.test.comparators[0].elts) >= 2 and all(isinstance(e, ast.Constant) for e in node.test.comparators[0].elts[:2]):
+                k = node.test.comparators[0].elts[1].value + (1 if isinstance(node.test.ops[0], ast.Gt) and len(node.test.comparators[0].elts) == 2 else 0)
                 for sub in node.body:
-                    guarded |= {id(x) for x in ast.walk(sub)}
-            if isinstance(node, (ast.If, ast.IfExp)) and "hasattr" in ast.dump(node.test):
-                guarded |= {id(x) for x in ast.walk(node)}
+                    for x in ast.walk(sub):
+                        version_guard[id(x)] = k
         np_aliases = set()
         for node in ast.walk(tree):
-            if id(node) in guarded:
+            if id(node) in guarded_imports:
                 if isinstance(node, ast.Import):
                     np_aliases |= {a.asname or a.name for a in node.names if a.name == "numpy"}
                 continue
@@ -212,15 +240,15 @@ def declared_environment(out: Outcome) -> None:
                 if top not in stdlib and top != "frouros" and top.lower() not in declared:
                     out.violation(f"{rel}: imports '{top}', which is neither the standard library nor a declared dependency ({sorted(declared)})", {"kind": "undeclared import", "file": rel, "module": top})
         for node in ast.walk(tree):
-            if id(node) in guarded:
+            if (isinstance(node, (ast.Import, ast.ImportFrom)) and id(node) in guarded_imports) or (isinstance(node, ast.Attribute) and (id(node) in guarded_attrs or id(node) in attr_try)):
                 continue
             if isinstance(node, ast.ImportFrom) and node.level == 0 and node.module in STDLIB_NEWER:
                 for a in node.names:
-                    if a.name in STDLIB_NEWER[node.module] and STDLIB_NEWER[node.module][a.name] > minor:
+                    if a.name in STDLIB_NEWER[node.module] and STDLIB_NEWER[node.module][a.name] > version_guard.get(id(node), minor):
                         out.violation(f"{rel}:{node.lineno}: `from {node.module} import {a.name}` needs Python 3.{STDLIB_NEWER[node.module][a.name]}, the package declares >= 3.{minor}",
                                       {"kind": "stdlib api", "file": rel, "name": f"{node.module}.{a.name}"})
             if isinstance(node, ast.Attribute) and isinstance(node.value, ast.Name) and node.value.id in STDLIB_NEWER and node.attr in STDLIB_NEWER[node.value.id] \
-                    and STDLIB_NEWER[node.value.id][node.attr] > minor:
+                    and STDLIB_NEWER[node.value.id][node.attr] > version_guard.get(id(node), minor):
                 out.violation(f"{rel}:{node.lineno}: {node.value.id}.{node.attr} needs Python 3.{STDLIB_NEWER[node.value.id][node.attr]}, the package declares >= 3.{minor}",
                               {"kind": "stdlib api", "file": rel, "name": f"{node.value.id}.{node.attr}"})
             if isinstance(node, ast.Attribute) and isinstance(node.value, ast.Name) and node.value.id in (np_aliases or {"np"}) and node.attr in NUMPY2_ONLY:
